@@ -1107,3 +1107,54 @@ package geometry
 //@   loop 1 invariant Pos: 0 <= i && i <= len(n.items)
 //@   loop 1 invariant Wide: (ibytes == 1 || ibytes == 2 || ibytes == 4) && (forall k int :: 0 <= k && k < len(n.items) ==> numBytesOf(n.items[k]) <= ibytes)
 //@   loop 1 decreases len(n.items) - i
+
+// ---------------------------------------------------------------- order-mode variants of the constructors (any finite coordinates):
+// what the parse layer and the object layer need for panic freedom -- shape, bounding box, index invariant -- without the
+// exact-domain facts. Chosen automatically for callers whose arithmetic mode is `order`.
+
+//@ spec func LineShape(l *Line) bool { l != nil && dyn(l.baseSeries) == typeid(*baseSeries) && SeriesInv(l.baseSeries) }
+//@ spec func RingShape(s Series) bool { SeriesInv(s) && sClosed(s) && isBS(s) }
+//@ spec func PolyShape(P *Poly) bool opaque {
+//@     P != nil && polyExt(P) != nil && RingShape(polyExt(P)) &&
+//@     (forall h int :: 0 <= h && h < polyNHoles(P) ==> polyHole(P,h) != nil && RingShape(polyHole(P,h))) }
+
+//@ func processPoints@order
+//@   props C11 C05
+//@   ensures Empty: ((closed && len(points) < 3) || len(points) < 2) ==> (!convex && !clockwise && rect == mkRect(mkPoint(0,0), mkPoint(0,0)))
+//@   ensures Rect: !((closed && len(points) < 3) || len(points) < 2) ==> rect == bboxOf(points, len(points))
+//@   loop 0 invariant Range: 0 <= i && i <= len(points) && len(points) >= 2
+//@   loop 0 invariant Box: i > 0 ==> rect == bboxOf(points, i) && rect.Min.X <= rect.Max.X && rect.Min.Y <= rect.Max.Y
+//@   loop 0 decreases len(points) - i
+
+//@ func makeSeries@order
+//@   props C11 C05
+//@   entry use globalsInit()
+//@   ensures Closed: result.closed == closed
+//@   ensures Points: samePts(result.points, points)
+//@   ensures Rect: !degenerate(points, closed) ==> result.rect == bboxOf(points, len(points))
+//@   ensures RectEmpty: degenerate(points, closed) ==> result.rect == mkRect(mkPoint(0,0), mkPoint(0,0))
+//@   ensures Index: IndexInv(result)
+//@   ensures Fresh: result != nil && !old($alloc)[result]
+
+//@ func newRing@order
+//@   props C11 C05
+//@   entry use globalsInit()
+//@   ensures Shape: RingShape(result) && sNpts(result) == len(points)
+//@   ensures Rect: len(points) >= 3 ==> sRect(result) == bboxOf(points, len(points))
+//@   ensures Fresh: result != nil && !old($alloc)[result]
+
+//@ func NewLine@order
+//@   props C11 C05
+//@   entry use globalsInit()
+//@   ensures Shape: LineShape(result) && !sClosed(result.baseSeries) && sNpts(result.baseSeries) == len(points)
+//@   ensures Rect: len(points) >= 2 ==> sRect(result.baseSeries) == bboxOf(points, len(points))
+//@   ensures Fresh: result != nil && !old($alloc)[result]
+
+//@ func NewPoly@order
+//@   props C11 C05
+//@   entry use globalsInit()
+//@   ensures Shape: PolyShape(result) && polyNHoles(result) == len(holes)
+//@   ensures Fresh: result != nil && !old($alloc)[result]
+//@   loop 0 invariant poly != nil && !old($alloc)[poly] && polyExt(poly) != nil && RingShape(polyExt(poly)) && polyNHoles(poly) == len(holes)
+//@   loop 0 invariant forall h int :: 0 <= h && h < $i ==> (polyHole(poly,h) != nil && RingShape(polyHole(poly,h)))
+//@   loop 0 invariant Frame: forall P *Poly :: old($alloc)[P] ==> (P.Exterior == old(P.Exterior) && P.Holes == old(P.Holes))
